@@ -498,8 +498,8 @@ macro_rules! c08_lfpool {
         }
     };
 }
-c08_lfpool!(c08_lfpool_alloc_at202_k4, probe, 66, true, 202, 4);
-c08_lfpool!(c08_lfpool_alloc_at201_k4, probe, 66, true, 201, 4);
-c08_lfpool!(c08_lfpool_free_at212_k2, probe, 66, false, 212, 2);
-c08_lfpool!(c08_lfpool_free_at211_k3, probe, 66, false, 211, 3);
+c08_lfpool!(c08_lfpool_alloc_at202_k4, thorough, 66, true, 202, 4);
+c08_lfpool!(c08_lfpool_alloc_at201_k4, thorough, 66, true, 201, 4);
+c08_lfpool!(c08_lfpool_free_at212_k2, thorough, 66, false, 212, 2);
+c08_lfpool!(c08_lfpool_free_at211_k3, thorough, 66, false, 211, 3);
 
